@@ -38,13 +38,13 @@ THEOREM_CLASSES = {
     "C02_rt_is_modular_add": "main", "C02_rt_is_modular_sub": "main", "C02_rt_is_modular_mul": "main", "C02_rt_is_modular_unm": "main",
     "C02_rt_is_modular_bitwise": "main", "C02_rt_is_modular_idiv_mod": "main", "C02_rt_shift_helpers": "main",
     "C02_rt_is_modular_shifts_refuted": "refutation", "C02_rt_is_modular_shifts_partial": "main",
-    "C02_rt_context_independent": "main",
+    "C02_rt_context_independent_refuted": "refutation", "C02_rt_context_independent_partial": "main", "C02_rt_context_independent_if_cast": "main",
     "C02_comparisons_agree": "main", "C02_fold_agrees_partial_arith": "main", "C02_fold_exact_partial": "main",
     "C02_wrap_value_correct": "main", "C02_baked_literal": "main", "C02_conv_rejected_iff": "definitional",
 }
 UNPROVED = [
     "fold_agrees (Proofs.fold_agrees_at) is proved for + - * only (typed operands, all types and values); for // % /// %%% | ~ & << >> >>> the same statement is evaluated by the oracle on every case (proved pieces: fold exactness for + - * // % incl. untyped literals when the result fits 64 bits, run-time modularity of every operator but /// %%% and unsigned // %, comparisons)",
-    "run-time theorems are about the STORED value of an operator result; that a result consumed directly by another operator has the same value is C02_rt_context_independent (model) + the fixed list NESTED_PROBES (implementation); deeper nesting, right-nested and half-constant nested forms: not modelled",
+    "run-time theorems are about the STORED value of an operator result; that a result consumed directly by another operator has the same value is the Definition C02_rt_context_independent, REFUTED today (`l << k`, k a compile-time count, l unsigned and narrower than int: proposed repair 11) and proved for everything else (C02_rt_context_independent_partial, run-time and compile-time counts) + the fixed list NESTED_PROBES (implementation); deeper nesting, right-nested and half-constant nested forms other than a literal shift count: not modelled",
     "`///` `%%%` and unsigned `//` `%` at run time, unary `~` on both sides, fold_un: correspondence only",
     "half-constant forms (one operand a baked literal), the C type of the emitted literal (Model.lit_ctype), untyped literals at run time: correspondence/probes only",
     "floats (float32/float64 operands, `/`, `^`): no theorem; fold vs run time compared bit for bit on generated probes; float32 folding is an open finding",
@@ -53,7 +53,7 @@ UNPROVED = [
     "C02_conv_rejected_iff is definitional (conv_accepts := in_rangeb); its link to C04's nelua_assert_narrow_ predicate is C04_narrow_fires_iff, in another sub-project",
 ]
 MANIFEST_ENTRY = {
-    "text": "proof, partial: theorems (integers, all types and values) for the run-time side of + - * unary- | ~ & // % (signed) << >> >>> (counts in int64) and all comparisons, for wrap_value / literal re-wrap, and for fold = run time on + - *; the full fold = run-time statement for the other operators, half-constant forms and untyped literals at run time rest on differential testing (one refuted statement recorded: uint64 shift counts); nested = stored is a theorem of the model, tied by 170 probes; floats: differential testing only",
+    "text": "proof, partial: theorems (integers, all types and values) for the run-time side of + - * unary- | ~ & // % (signed) << >> >>> (counts in int64) and all comparisons, for wrap_value / literal re-wrap, and for fold = run time on + - *; the full fold = run-time statement for the other operators, half-constant forms and untyped literals at run time rest on differential testing (one refuted statement recorded: uint64 shift counts); nested = stored (run-time and compile-time shift counts) is refuted for `l << k` with a constant count on uint8/uint16 and a theorem of the model otherwise, its cast conditions scraped from the emitter, tied by 274 probes; floats: differential testing only",
     "note": "trusted: Coq kernel, Base/CInt Gnu mode = gcc/clang, bint(160) = Z mod 2^160 (C17), helpers taken from the generated C through harness/C04/cparse.py, type table through harness/C04/types.lua (files owned by property C04), hand model of types.lua fold functions",
     "technique": "machine-checked proof in Coq over an executable model + helpers scraped from the generated C + extracted-model/implementation correspondence and probe programs",
 }
@@ -155,6 +155,45 @@ def load_types(ctx):
     return types, ladders
 
 
+def _fn_body(src, header):
+    i = src.index(header)
+    j = src.index("\nend\n", i)
+    return src[i:j]
+
+
+def scrape_cast_rules():
+    """Which operator results the emitter casts to their own type (cbuiltins.lua).  Each flag is the
+    presence of the discriminating condition / emitted shape; an unknown shape of the surrounding code raises."""
+    src = vlib.repo_read("lualib/nelua/cbuiltins.lua")
+    bop = _fn_body(src, "local function operator_binary_op(")
+    if "ltype.is_unsigned ~= rtype.is_unsigned" not in bop or "emitter:add('(', lname, ' ', op, ' ', rname, ')')" not in bop:
+        raise RuntimeError("operator_binary_op changed shape")
+    unm = _fn_body(src, "function cbuiltins.operators.unm(")
+    bnot = _fn_body(src, "function cbuiltins.operators.bnot(")
+    tdiv = _fn_body(src, "function cbuiltins.operators.tdiv(")
+    tmod = _fn_body(src, "function cbuiltins.operators.tmod(")
+    shl = _fn_body(src, "function cbuiltins.operators.shl(")
+    shr = _fn_body(src, "function cbuiltins.operators.shr(")
+    asr = _fn_body(src, "function cbuiltins.operators.asr(")
+    fast = "rattr.comptime and rattr.value >= 0 and rattr.value < ltype.bitsize"
+    if fast not in shl or fast not in asr or ("ltype.is_unsigned and " + fast) not in shr:
+        raise RuntimeError("the constant-count fast paths of operators.shl/shr/asr changed shape")
+    if "emitter:add('((',ltype,')((',ltype:unsigned_type(),')', lname, ' << ', rname, '))')" not in shl:
+        raise RuntimeError("operators.shl: the signed fast path changed shape")
+    if "emitter:add('(', lname, ' >> ', rname, ')')" not in shr or "emitter:add('(', lname, ' >> ', rname, ')')" not in asr:
+        raise RuntimeError("operators.shr/asr: the fast path changed shape")
+    mixed = "ltype.is_integral and rtype.is_integral and ltype.is_unsigned ~= rtype.is_unsigned"
+    if mixed not in tdiv or mixed not in tmod:
+        raise RuntimeError("operators.tdiv/tmod: the mixed-signedness branch changed shape")
+    return {
+        "binop_casts_subint": bool(re.search(r"type\.is_integral and type\.size < primtypes\.cint\.size", bop)),
+        "unop_casts_subint": ("argattr.type.size < primtypes.cint.size" in unm) and ("argattr.type.size < primtypes.cint.size" in bnot),
+        "tdiv_mixed_casts_back": ("emitter:add('((', type, ')((', type, ')', lname, ' / (', type, ')', rname, '))')" in tdiv) and
+                                 ("emitter:add('((', type, ')((', type, ')', lname, ' % (', type, ')', rname, '))')" in tmod),
+        "shl_fast_casts_unsigned_subint": bool(re.search(r"ltype\.is_unsigned and ltype\.size < primtypes\.cint\.size", shl)),
+    }
+
+
 def gen(ctx):
     types, ladders = load_types(ctx)
     cparse.set_pointer_bits(types["usize"][0])
@@ -197,12 +236,17 @@ def gen(ctx):
         L.append("Definition %s_table : list (ity * cfun) := [" % k)
         L.append(";\n".join("  (%s, %s)" % (ity(t), cparse.coq(f)) for t, f in one[k]))
         L += ["].", ""]
+    disc = scrape_cast_rules()
+    L += ["(* discriminating conditions of the emitter (cbuiltins.lua), scraped: which results are cast to their type *)"]
+    for k in sorted(disc):
+        L.append("Definition %s : bool := %s." % (k, "true" if disc[k] else "false"))
+    L.append("")
     for k in ("lt", "eq"):
         L.append("Definition %s_table : list (ity * ity * cfun) := [" % k)
         L.append(";\n".join("  (%s, %s, %s)" % (ity(a), ity(b), cparse.coq(f)) for a, b, f in two[k]))
         L += ["].", ""]
     vlib.write_if_changed(os.path.join(vlib.coq_dir(ID), "Gen.v"), "\n".join(L) + "\n")
-    return {"ladders": ladders, "types": {k: {"bits": v[0], "signed": v[1]} for k, v in types.items()},
+    return {"emitter_cast_rules": disc, "ladders": ladders, "types": {k: {"bits": v[0], "signed": v[1]} for k, v in types.items()},
             "helpers": {k: len(v) for k, v in list(one.items()) + list(two.items())},
             "driver_fingerprint": repo_fingerprint()}
 
@@ -782,7 +826,21 @@ def predict_float_fold(op, lt, rt, a, b):
     return v
 
 
-def float_key(op, lt, rt, a, b, const_val, text):
+def predict_float32_rt(op, lt, rt, a, b):
+    """Run-time value of a float32-result + - * / by the unchanged emitter: both operands converted to float32, one correctly
+    rounded float32 operation (a double operation on float32 operands rounded to float32 is the same value).  None otherwise."""
+    if op not in ("add", "sub", "mul", "div") or "float64" in (lt, rt) or "float32" not in (lt, rt):
+        return None
+    try:
+        x, y = _f32(float(a)), _f32(float(b))
+        if op == "div" and y == 0:
+            return None
+        return _f32({"add": x + y, "sub": x - y, "mul": x * y, "div": (x / y) if y != 0 else 0.0}[op])
+    except (OverflowError, ValueError, TypeError):
+        return None
+
+
+def float_key(op, lt, rt, a, b, const_val, text, run_val=None):
     """Key of a float divergence: designated witnesses by exact input; otherwise a key naming the code
     site, operator and operand types, and only when the baked constant is what the unchanged code is
     predicted to bake (float32 folded in double precision / sign of zero of %%%); else the exact input."""
@@ -794,7 +852,11 @@ def float_key(op, lt, rt, a, b, const_val, text):
         return "types.lua:IntegralType.tdiv:sign-of-zero-divisor-dropped:%s:%s" % (lt, rt)
     if same and op in ("tdiv", "tmod") and not lt.startswith("float") and const_val == 0:
         return "types.lua:IntegralType.%s:integer-valued-float-operands-lose-sign-of-zero:%s:%s" % (op, lt, rt)
-    if same and "float32" in (lt, rt or ""):
+    # the float32 cause applies to float32 RESULTS only (float64 x float32 is computed in double on both sides), and for
+    # + - * / the run-time side must be what the unchanged emitter computes as well
+    rp = predict_float32_rt(op, lt, rt, a, b) if rt else None
+    rt_ok = rp is None or run_val is None or rp == run_val or (rp != rp and run_val != run_val)
+    if same and rt_ok and "float32" in (lt, rt or "") and "float64" not in (lt, rt or ""):
         return "types.lua:float-binary-op:float32-folded-in-double:%s:%s:%s" % (op, lt, rt)
     if same and op == "tmod" and isinstance(a, float) and a == 0 and str(a).startswith("-"):
         return "types.lua:FloatType.tmod:sign-of-zero:%s:%s" % (lt, rt)
@@ -942,6 +1004,20 @@ def _nested_probes():
     for (o1, t, a, b) in (("bor", "uint8", 200, 100), ("bxor", "int8", -128, 127), ("shl", "uint8", 200, 1), ("idiv", "int8", -128, -1), ("tdiv", "int8", -128, -1)):
         out.append((o1, "gt", t, t, t, a, b, 0))
         out.append((o1, "add", t, t, t, a, b, 100))
+    out = [pr + (0,) for pr in out]
+    # COMPILE-TIME counts (last field 1: the count is written as a bare literal): the emitter takes its shift fast paths
+    # (cbuiltins.operators.shl/shr/asr); t2 only names the type the literal takes when the helper is used after all
+    for (o1, t, a, b) in (("shl", "uint8", 200, 1), ("shl", "uint8", 255, 7), ("shl", "uint8", 1, 7), ("shl", "uint16", 65535, 4), ("shl", "uint16", 40000, 1),
+                          ("shl", "uint32", 4294967295, 1), ("shl", "uint64", 18446744073709551615, 1), ("shl", "int8", 100, 1), ("shl", "int8", -128, 1),
+                          ("shl", "int16", 32767, 1), ("shl", "int32", 2147483647, 1), ("shl", "int64", 9223372036854775807, 1),
+                          ("shr", "uint8", 200, 1), ("shr", "uint16", 65535, 15), ("shr", "uint32", 4294967295, 31), ("shr", "int8", -128, 1), ("shr", "int32", -5, 1),
+                          ("asr", "int8", -128, 1), ("asr", "uint8", 200, 1), ("asr", "int32", -5, 1), ("asr", "int16", -32768, 15), ("asr", "int64", -9223372036854775808, 63),
+                          ("shl", "uint8", 200, 8), ("shl", "uint8", 200, -1), ("asr", "int8", -128, 9), ("shr", "uint16", 65535, 16)):
+        m = {"int8": 127, "int16": 32767, "int32": 2147483647, "int64": 9223372036854775807, "uint8": 255, "uint16": 65535, "uint32": 4294967295, "uint64": 18446744073709551615}[t]
+        out.append((o1, "gt", t, "int64", t, a, b, m, 1))
+        out.append((o1, "idiv", t, "int64", t, a, b, 2, 1))
+        out.append((o1, "add", t, "int64", t, a, b, 100, 1))
+        out.append((o1, "eq", t, "int64", "int64", a, b, a * 2 if -2**63 <= a * 2 < 2**63 else 0, 1))
     return out
 
 
@@ -967,8 +1043,18 @@ def _untyped_probes():
 UNTYPED_PROBES = _untyped_probes()
 
 
-def nested_text(k, o1, o2, t1, t2, t3, a, b, c):
+def nested_show(o1, o2, t1, t2, t3, a, b, c, k1):
+    cnt = ("(%d)" % b if b < 0 else "%d" % b) if k1 else "%s(%d)" % (t2, b)
+    return "(%s(%d) %s %s) %s %s(%d)" % (t1, a, OPSYM[o1], cnt, OPSYM[o2], t3, c)
+
+
+def nested_text(k, o1, o2, t1, t2, t3, a, b, c, k1):
     s1, s2 = OPSYM[o1], OPSYM[o2]
+    if k1:
+        cnt = "(%d)" % b if b < 0 else "%d" % b
+        return ("do\n  local n = (id_%s(%d) %s %s) %s id_%s(%d)\n  local t = id_%s(%d) %s %s\n  local s = t %s id_%s(%d)\n"
+                "  printf(\"P %d nested - |\") outv(n) printf(\" |\") outv(s) printf(\" | - - | - -\\n\")\nend\n") % (
+                    t1, a, s1, cnt, s2, t3, c, t1, a, s1, cnt, s2, t3, c, k)
     return ("do\n  local n = (id_%s(%d) %s id_%s(%d)) %s id_%s(%d)\n  local t = id_%s(%d) %s id_%s(%d)\n  local s = t %s id_%s(%d)\n"
             "  printf(\"P %d nested - |\") outv(n) printf(\" |\") outv(s) printf(\" | - - | - -\\n\")\nend\n") % (
                 t1, a, s1, t2, b, s2, t3, c, t1, a, s1, t2, b, s2, t3, c, k)
@@ -998,7 +1084,7 @@ def extra_probe_stream(ctx, mdriver, violation, stats):
     else:
         rc, out, err = vlib.sh(["bash", "-c", "ulimit -c 0; exec '%s'" % exe], timeout=120)
         lines = {int(l.split()[1]): l for l in out.split("\n") if l.startswith("P ")}
-        m_in = ["rtnest %s %s %s %s %s %s %s %s" % (o1, o2, tb(t1), tb(t2), tb(t3), hx(a), hx(b), hx(c)) for (o1, o2, t1, t2, t3, a, b, c) in NESTED_PROBES]
+        m_in = ["rtnest %s %s %s %s %s %s %s %s %d" % (o1, o2, tb(t1), tb(t2), tb(t3), hx(a), hx(b), hx(c), k1) for (o1, o2, t1, t2, t3, a, b, c, k1) in NESTED_PROBES]
         m_out = run_parallel([mdriver], m_in, 1)
         def canon_model(x):
             w = x.split()
@@ -1010,8 +1096,7 @@ def extra_probe_stream(ctx, mdriver, violation, stats):
                 violation("nested-probe-missing", "nested probe %d printed nothing: %s" % (k, err[-200:]), {}, failing=False, kind="harness")
                 continue
             stats["nested_probes"] = stats.get("nested_probes", 0) + 1
-            o1, o2, t1, t2, t3, a, b, c = pr
-            text = "(%s(%d) %s %s(%d)) %s %s(%d)" % (t1, a, OPSYM[o1], t2, b, OPSYM[o2], t3, c)
+            text = nested_show(*pr)
             parts = [x.split() for x in lines[k].split("|")]
             n, st = parts[1], parts[2]
             mn, ms = [canon_model(x.strip()) for x in mo.split("|")]
@@ -1201,7 +1286,11 @@ def probe_stream(ctx, mdriver, violation):
                             cv = float("nan") if "nan" in bk[1] else (float("inf") if bk[1] == "inf" else float("-inf") if bk[1] == "-inf" else float.fromhex(bk[1]))
                         except ValueError:
                             cv = None
-                        cls = float_key(op, lt, rt, a, b, cv, text + ":" + name) if name == "constant" else "case:float:" + text + ":" + name
+                        try:
+                            rv = float("nan") if "nan" in r[1] else (float("inf") if r[1] == "inf" else float("-inf") if r[1] == "-inf" else float.fromhex(r[1]))
+                        except ValueError:
+                            rv = None
+                        cls = float_key(op, lt, rt, a, b, cv, text + ":" + name, rv) if name == "constant" else "case:float:" + text + ":" + name
                         stats["float_divergences"] = stats.get("float_divergences", {})
                         stats["float_divergences"][cls] = stats["float_divergences"].get(cls, 0) + 1
                         violation(cls, "C02 (floats, correspondence only) `%s`: %s form gives %s %s, all-run-time form gives %s %s (folded attr.value %s %s)" %
